@@ -303,13 +303,20 @@ class CallbacksExecutor:
         insort(self.items, wrapper)
 
     async def async_call(self, *args, **kwargs):
-        return await asyncio.gather(
-            *(
-                callback(*args, **kwargs)
-                for callback in self
-                if callback.condition(*args, **kwargs)
-            )
-        )
+        tasks = [
+            asyncio.ensure_future(callback(*args, **kwargs))
+            for callback in self
+            if callback.condition(*args, **kwargs)
+        ]
+        try:
+            return await asyncio.gather(*tasks)
+        except BaseException:
+            # One callback failed (or we were cancelled): the others must not go on
+            # running in the background after the event has been abandoned.
+            for task in tasks:
+                task.cancel()
+            await asyncio.gather(*tasks, return_exceptions=True)
+            raise
 
     async def async_all(self, *args, **kwargs):
         for condition in self:
